@@ -5,7 +5,7 @@ LEVEL = "model_checking"
 
 BASE = dict(QueueCap=2, MaxInflight=2, MaxPending=1, MutKeepTimedOut=False, NReq=3, CBs={True, False},
             Kinds={"inter", "final", "abort"}, CloseStats={"Good", "BadCommunicationError"}, MaxChunks=6, MaxDepth=8,
-            ForceClose=False)
+            MinCloseDepth=0, ForceClose=False)
 PREDICTED = ("took", "id", "hit", "h", "closed", "out", "st")
 
 
@@ -17,26 +17,27 @@ def run(ctx):
     q = ctx.quick
     inv = ["C35", "GhostOnce", "GhostOwn"]
     # the design: all interleavings, the L2 monitor and the statement on the ghost completions
-    ctx.model_check("design", "MCClientTransport", dict(BASE, MaxDepth=9 if q else 12), inv, view="MView")
-    ctx.model_check("design_tight_queue", "MCClientTransport",
-                    dict(BASE, QueueCap=1, MaxInflight=1, MaxPending=2, MaxDepth=8 if q else 12, MaxChunks=5), inv, view="MView")
+    ctx.model_check("design", "MCClientTransport", dict(BASE, MaxDepth=8 if q else 12), inv, view="MView")
     if not q:
+        ctx.model_check("design_tight_queue", "MCClientTransport",
+                        dict(BASE, QueueCap=1, MaxInflight=1, MaxPending=2, MaxDepth=12, MaxChunks=5), inv, view="MView")
         ctx.model_check("design_4_requests", "MCClientTransport",
                         dict(BASE, NReq=4, MaxInflight=3, QueueCap=2, MaxPending=0, MaxDepth=10, CBs={True}), inv, view="MView")
     # the monitor is not vacuous: a transport that answers a timed-out request but keeps it pending is caught
     ctx.model_check("mutant_keep_timed_out", "MCClientTransport", dict(BASE, MutKeepTimedOut=True, MaxDepth=8), ["C35"],
                     view="MView", expect_violation="C35")
     gens = []
-    for nm, c, cap in (("exhaustive", dict(BASE, ForceClose=True, MaxDepth=5 if q else 7, MaxChunks=4), 2500 if q else 60000),
+    for nm, c, cap in (("exhaustive", dict(BASE, ForceClose=True, MaxDepth=5 if q else 7, MaxChunks=4), 1500 if q else 60000),
                        ("exhaustive_tight", dict(BASE, ForceClose=True, QueueCap=1, MaxInflight=1, MaxPending=2, CBs={True},
-                                                 CloseStats={"Good"}, MaxDepth=6 if q else 8, MaxChunks=5), 1500 if q else 60000)):
+                                                 CloseStats={"Good"}, MaxDepth=6 if q else 8, MaxChunks=5), 1000 if q else 60000)):
         h, r = ctx.gen(nm, "GenClientTransport", c)
         gens.append((nm, cfg_of(c), take(h, cap, ctx.seed)))
-    n = 200 if q else 6000
-    for nm, c in (("random", dict(BASE, ForceClose=True, NReq=6, MaxInflight=3, QueueCap=2, MaxPending=2, MaxChunks=14, MaxDepth=24,
-                                  CloseStats={"Good", "BadSecureChannelClosed"})),
-                  ("random_tight", dict(BASE, ForceClose=True, NReq=5, MaxInflight=1, QueueCap=1, MaxPending=1, MaxChunks=12, MaxDepth=20))):
-        h, r = ctx.gen(nm, "GenClientTransport", c, simulate="num=%d" % n)
+    n = 150 if q else 6000
+    rnd = (("random", dict(BASE, ForceClose=True, NReq=6, MaxInflight=3, QueueCap=2, MaxPending=2, MaxChunks=14, MaxDepth=24, MinCloseDepth=16,
+                           CloseStats={"Good", "BadSecureChannelClosed"})),
+           ("random_tight", dict(BASE, ForceClose=True, NReq=5, MaxInflight=1, QueueCap=1, MaxPending=1, MaxChunks=12, MaxDepth=20, MinCloseDepth=12)))
+    for nm, c in rnd:
+        h, r = ctx.gen(nm, "GenClientTransport", c, simulate="num=%d" % max(20, n // 4))
         gens.append((nm, cfg_of(c), take(h, n, ctx.seed)))
     ctx.cov["exhaustive"] = True
 
